@@ -132,3 +132,16 @@ fn r4_seed_stack<TSpec: EbmlSpecification>(path: &'static [PathPart], tag_stack:
 /// R4 helper for `self.tag_stack.last().map(|tag| tag.tag.get_id())` — ASSUMED
 #[verifier::external_body]
 fn r4_last_id<TSpec: EbmlSpecification>(tag_stack: &Vec<ProcessingTag<TSpec>>) -> (r: Option<u64>) ensures r == sp_last_id::<TSpec>(tag_stack@) { unimplemented!() }
+
+/// R4 helper for the loop `for tag in self.tag_stack.iter_mut() { if let Known(size) = &tag.size { tag.size = Known(size + diff); } }` — ASSUMED
+/// (enlarges every known-size open master by the skipped distance; bounded-checked by bx_iter_docs C14 clauses)
+#[verifier::external_body]
+fn r4_enlarge_known<TSpec: EbmlSpecification>(tag_stack: &mut Vec<ProcessingTag<TSpec>>, diff: usize)
+    ensures final(tag_stack)@.len() == old(tag_stack)@.len(),
+{ unimplemented!() }
+
+/// R4 helper for `panic!("read position exceeded buffer length")`: requires false, i.e. Verus must prove the call unreachable
+#[verifier::external_body]
+fn r4_unreachable_panic()
+    requires false
+{ unimplemented!() }
